@@ -144,7 +144,7 @@ func (fs *FS) fault(class string) *Fault {
 //go:norace
 func faultClass(kind string) string {
 	switch kind {
-	case "write-eio", "write-short", "write-enospc":
+	case "write-eio", "write-short", "write-enospc", "write-short-noerr":
 		return "write"
 	case "sync-eio":
 		return "sync"
@@ -278,6 +278,11 @@ func (f *simFile) WriteAt(p []byte, off int64) (int, error) {
 			}
 			e := error(io.ErrShortWrite)
 			es := "short"
+			if flt.Kind == "write-short-noerr" {
+				// a File whose WriteAt reports a short count without an error
+				// (outside io.WriterAt's contract, but moss checks the count)
+				e, es = nil, "short-noerr"
+			}
 			if flt.Kind == "write-enospc" {
 				fs.enospc = true
 				fs.enospcLeft = 4 + flt.Frac%20
